@@ -356,7 +356,7 @@ def r6_batch_unbatch(ctx):
 
 
 CONTROLS = [
-    ("Where alters interaction", EF, M.replace_stmt("Where.filter", M.text_has("yield interaction"), "interaction['context'] = None\nyield interaction"), "C09.R1"),
+    ("Where alters interaction", EF, M.replace_stmt("Where.filter", M.simple_has("yield interaction"), "interaction['context'] = None\nyield interaction"), "C09.R1"),
     ("Sort yields copies", EF, M.replace_expr("Sort.filter", "sorted(interactions, key=sorter)", "sorted(map(dict, interactions), key=sorter)"), "C09.R1"),
     ("Riffle unseeded", EF, M.replace_expr("Riffle.filter", "CobaRandom(self._seed)", "CobaRandom()"), "C09.R2"),
     ("one-sided range", EF, M.replace_expr("Where._in_min_max", "(minv is None or minv <= v) and (maxv is None or v <= maxv)", "minv is None or minv <= v"), "C09.R5"),
